@@ -228,4 +228,27 @@ def check_domains(ctx):
             if isinstance(v, ast.Name) and v.id in defs:
                 v = defs[v.id][-1]
             ok = isinstance(v, ast.Call) and isinstance(v.func, ast.Attribute) and v.func.attr == 'synthetic_data'
+            if not ok and isinstance(v, ast.Call) and U(v.func).split('.')[-1] == 'Dataset' and len(v.args) >= 2:
+                # Dataset(<the sampled frame, columns picked / cast>, <the input's own domain>)
+                def resolve(e):
+                    seen = 0
+                    while isinstance(e, ast.Name) and e.id in defs and len(defs[e.id]) == 1 and seen < 8:
+                        e, seen = defs[e.id][0], seen + 1
+                    return e
+                dom_ok = U(resolve(v.args[1])) == data + '.domain' and not rebound
+                x = resolve(v.args[0])
+                while True:
+                    if isinstance(x, ast.Call) and isinstance(x.func, ast.Attribute) and x.func.attr in ('astype', 'copy', 'reset_index', 'reindex'):
+                        x = resolve(x.func.value)
+                    elif isinstance(x, ast.Subscript):
+                        x = resolve(x.value)
+                    else:
+                        break
+                sampled = isinstance(x, ast.Attribute) and x.attr == 'df' and isinstance(resolve(x.value), ast.Call) and \
+                    isinstance(resolve(x.value).func, ast.Attribute) and resolve(x.value).func.attr == 'synthetic_data'
+                if not sampled:
+                    raise AnalysisError('%s: returns `%s`, whose records this analysis cannot trace to a synthetic_data() sample' % (q, U(r.value)[:60]))
+                ctx.ob('domain-restored', fi, r, dom_ok, 'the sampled records are returned over the input dataset\'s own domain (`%s.domain`); returns `%s`'
+                       % (data, U(r.value)[:60]))
+                continue
             ctx.ob('domain-restored', fi, r, ok, 'the returned dataset is sampled from the fitted model (`<model>.synthetic_data()`); returns `%s`' % U(r.value)[:60])
